@@ -10,11 +10,12 @@ class Run:
     pass
 
 
-def make(r, eng, gated, nfaults=0, want_kind=None, surface=None, root=None):
+def make(r, eng, gated, nfaults=0, want_kind=None, surface=None, root=None, symbol_files=True):
     """Returns a Run with .nodes .text .rendered .d .root .messages .faults, or None when the base document is unusable."""
     run = Run()
     run.error = None
-    run.nodes = gen.gen_document(r, gen.GenOpts(gated=set(gated), p_key=r.choice([0.2, 0.35]), valid=True, dup=0.0), root=root)[:1]
+    run.nodes = gen.gen_document(r, gen.GenOpts(gated=set(gated), p_key=r.choice([0.2, 0.35]), valid=True, dup=0.0,
+                                                    symbol_files=symbol_files), root=root)[:1]
     run.faults = F.inject(r, run.nodes, nfaults, want_kind) if nfaults else []
     gen.apply_gates(run.nodes[0], gated)
     run.surface = surface or render.CANONICAL
